@@ -352,6 +352,18 @@ func (s *Server) Shutdown(d time.Duration) bool {
 	return s.Wait(d)
 }
 
+// CloseAll closes every connection that is open now (like a server-side idle
+// timeout); the server keeps accepting new ones.
+func (s *Server) CloseAll() {
+	s.mu.Lock()
+	cs := append([]*Conn(nil), s.sconns...)
+	logs := append([]*ConnLog(nil), s.conns...)
+	s.mu.Unlock()
+	for i, c := range cs {
+		s.scan(c.CloseTake(), logs[i])
+	}
+}
+
 // Wait waits up to d for all serving goroutines to finish (each finishes when
 // its connection was closed by either side and its input was drained).
 func (s *Server) Wait(d time.Duration) bool {
